@@ -25,6 +25,8 @@ def _container(env, kind, xs):
         return tuple(xs)
     if kind == 'ndarray':
         return env.arr(list(xs))
+    if kind.startswith('ndarray-'):
+        return env.arr(list(xs), dtype=kind.split('-', 1)[1])       # an array that already has a narrow / exact dtype (uint8, bool, float ...)
     raise KeyError(kind)
 
 
@@ -47,6 +49,8 @@ def scen_ctor(env, cfg):
         xs = env.reals('x', n, -3, 3)
     elif vt == 'int':
         xs = [env.int(f'x[{i}]', -2, 3) for i in range(n)]
+    elif vt == 'nat':
+        xs = [env.int(f'x[{i}]', 0, 3) for i in range(n)]
     else:
         xs = [env.boolean(f'x[{i}]') for i in range(n)]
     if kind == 'scalar':
@@ -56,7 +60,7 @@ def scen_ctor(env, cfg):
         data = env.arr([list(xs[:h]), list(xs[h:2 * h])])
     else:
         data = _container(env, kind, xs)
-    snap = env.snap(data) if kind in ('ndarray', '2d') else None
+    snap = env.snap(data) if kind.startswith('ndarray') or kind == '2d' else None
     try:
         b = lib.typing.binary_sequence(data)
         ok = True
@@ -273,6 +277,9 @@ def configs(tier):
                 if vt == 'real' and n > 4:
                     continue
                 out.append((f'ctor-{kind}-{vt}-n{n}', scen_ctor, dict(n=n, kind=kind, vtype=vt), {}))
+    for n in ([1, 3] if q else [1, 2, 3, 5]):
+        out.append((f'ctor-ndarray-uint8-n{n}', scen_ctor, dict(n=n, kind='ndarray-uint8', vtype='nat'), {}))
+        out.append((f'ctor-ndarray-int-as-float-n{n}', scen_ctor, dict(n=n, kind='ndarray-float', vtype='int'), {}))
     for vt in ('real', 'int', 'bool'):
         out.append((f'ctor-scalar-{vt}', scen_ctor, dict(n=1, kind='scalar', vtype=vt), {}))
     out.append(('ctor-2d', scen_ctor, dict(n=4, kind='2d', vtype='int'), {}))
